@@ -22,9 +22,9 @@ func init() {
 
 func (p *c05) NumCases(tier string) int {
 	if tier == "thorough" {
-		return 200000
+		return 400000
 	}
-	return 20000
+	return 60000
 }
 
 // c05Cond returns a typed condition over the item attributes a:S, v:N, g:S, s:S.
